@@ -3,7 +3,7 @@
    Proofs/Dgram_lemmas.v, followed by Print Assumptions.  Model: Model/Dgram.v (the code after
    the repairs F3, F4, F10, F16; `as_found` = the code before them).                          *)
 From Coq Require Import List NArith Ascii Bool.
-From SV Require Import Lib.Bytes Lib.DgramLib Model.Chan Model.Dgram Proofs.Dgram_lemmas Gen.Consts.
+From SV Require Import Lib.Bytes Lib.DgramLib Model.Chan Model.Dgram Proofs.Dgram_lemmas Proofs.DgramServer_lemmas Gen.Consts.
 Import ListNotations.
 Local Open Scope N_scope.
 
@@ -163,15 +163,67 @@ Theorem c11_no_crash_recvfrom :
 Proof. exact udp_callback_error. Qed.
 Print Assumptions c11_no_crash_recvfrom.
 
-(* NOT PROVED (gap): no exception of the whole server loop on UDP scripts; function-level theorems above
-   cover UdpProxy.callback, udp_req(DATA/CLOSE); missing: the handler-table invariant through fold_steps
-   (channels ⊆ udphandlers ⊆ handlers) that makes the KeyError branches of udp_req unreachable. *)
-Definition c11_server_no_crash_full : Prop :=
+(* SERVER, the loop as a whole on UDP scripts (the former gap).  The handler-table invariant `sinv`
+   (Proofs/DgramServer_lemmas.v; Props/C10.v c10_server_invariant, c10_server_step_invariant) — every open
+   channel has a registered, present, live UdpProxy of that identifier — is carried through the frame dispatch,
+   every handler visit, the sweeps and the removal of dead handlers; it makes the KeyError branches of udp_req
+   unreachable.
+
+   Full statement: for every script of UDP_OPEN / UDP_CLOSE / UDP_DATA frames as a conforming client sends them
+   (16-bit identifiers; UDP_OPEN carries a decimal family and is never sent on an open identifier; UDP_DATA is
+   'ip,port,' + payload with port <= 65535) and sockets whose recvfrom returns address-sized peers, the server
+   loop never raises — any interleaving of associations, closes racing with data, identifiers re-used, any
+   ready sets, any send/recv errors, any times.  *)
+Theorem c11_server_no_crash_full :
   forall cfg evs,
     (forall e, In e evs -> forall f, In f (se_frames e) ->
-       snd (fst (fst f)) = FUdpOpen \/ snd (fst (fst f)) = FUdpClose \/
-       (snd (fst (fst f)) = FUdpData /\ exists ip port p, no_comma ip /\ port <= 65535 /\ snd (fst f) = dgram_hdr (ip, port) p)) ->
+       fst (fst (fst f)) <= 65535 /\
+       ((snd (fst (fst f)) = FUdpOpen /\ exists fam, snd (fst f) = dec fam) \/ snd (fst (fst f)) = FUdpClose \/
+        (snd (fst (fst f)) = FUdpData /\
+         exists ip port p, no_comma ip /\ port <= 65535 /\ snd (fst f) = dgram_hdr (ip, port) p))) ->
+    run_no_reopen [] evs ->
+    (forall e, In e evs -> forall it, In it (se_io e) -> io_ok it) ->
+    forall x, snd (srun all_fixed cfg s_init evs) <> Crash x.
+Proof.
+  intros cfg evs H. apply server_no_crash_udp. intros e He f Hf. destruct (H e He f Hf) as [A [[B C]|[B|B]]].
+  - split; [split; [exact A|left; exact B]|intros _; exact C].
+  - split; [split; [exact A|right; left; exact B]|intros D; congruence].
+  - split; [split; [exact A|right; right; exact B]|intros D; destruct B as [B _]; congruence].
+Qed.
+Print Assumptions c11_server_no_crash_full.
+
+(* the statement as first written (no discipline on identifiers, any UDP_OPEN body, any socket script): apart from
+   the assertion of Mux.got_packet/Mux.send and int()'s ValueError nothing can be raised — in particular no
+   KeyError, OverflowError, UnboundLocalError, OSError *)
+Theorem c11_server_only_assert_value :
+  forall cfg evs,
+    (forall e, In e evs -> forall f, In f (se_frames e) ->
+       fst (fst (fst f)) <= 65535 /\
+       (snd (fst (fst f)) = FUdpOpen \/ snd (fst (fst f)) = FUdpClose \/
+        (snd (fst (fst f)) = FUdpData /\ exists ip port p, no_comma ip /\ port <= 65535 /\ snd (fst f) = dgram_hdr (ip, port) p))) ->
     forall x, x <> XAssert -> x <> XValue -> snd (srun all_fixed cfg s_init evs) <> Crash x.
+Proof. exact server_udp_only_assert_value. Qed.
+Print Assumptions c11_server_only_assert_value.
+
+(* why `<= 65535` is a hypothesis: the earlier formulation without it is false of the model (an identifier that
+   cannot come off the wire — struct '!H' — reaches Mux.send: struct.error); not a defect of the code *)
+Theorem c11_server_unbounded_channel_refuted : exists cfg evs,
+  (forall e, In e evs -> forall f, In f (se_frames e) ->
+     snd (fst (fst f)) = FUdpOpen \/ snd (fst (fst f)) = FUdpClose \/
+     (snd (fst (fst f)) = FUdpData /\ exists ip port p, no_comma ip /\ port <= 65535 /\ snd (fst f) = dgram_hdr (ip, port) p)) /\
+  exists x, x <> XAssert /\ x <> XValue /\ snd (srun all_fixed cfg s_init evs) = Crash x.
+Proof.
+  exists w_scfg, w_bigchan. split.
+  - intros e [<-|[<-|[]]] f Hf; cbn in Hf; [|destruct Hf]. destruct Hf as [<-|[]]. left. reflexivity.
+  - exists XStruct. split; [discriminate|]. split; [discriminate|exact bigchan_struct].
+Qed.
+Print Assumptions c11_server_unbounded_channel_refuted.
+
+(* non-vacuity: a conforming UDP script (open, data, reply, close, re-open in a later iteration) satisfies the
+   hypotheses of c11_server_no_crash_full and runs to the end *)
+Example c11_server_conforming_example :
+  run_no_reopen [] w_reopen_next_iteration /\ snd (srun all_fixed w_scfg s_init w_reopen_next_iteration) = Ok tt.
+Proof. split; [cbn; repeat split; discriminate|vm_compute; reflexivity]. Qed.
 
 (* ---- the code as found: refuted ---- *)
 Theorem c11_f3_refuted : exists cfg evs,
